@@ -1,56 +1,49 @@
-// C06 / C07 (spsc channel): harnesses over the real src/sync/spsc.rs with the real
-// may_queue::spsc queue.  Child module of src/sync/spsc.rs (cfg(kani) only).
+// C07 / C06 (spsc channel, coroutine receiver): harnesses over the real src/sync/spsc.rs with the
+// real may_queue::spsc queue.  Child module of src/sync/spsc.rs (cfg(kani) only).
 //
-// Real code: channel, Sender::{send, drop}, Receiver::{recv, try_recv}, InnerQueue::{send, recv,
-// try_recv, drop_chan}, Park::{new, subscribe, drop}, DropGuard, Blocker::{new_coroutine,
-// into_coroutine, unpark}, yield_with, may_queue::spsc::Queue::{push, pop, is_empty}.
-// Models: context switch (co_yield_with), resumption of the coroutine token (run_coroutine /
-// Scheduler::schedule), crossbeam AtomicCell = one atomic cell.  The receiver is a coroutine.
+// Real code: channel, Sender::{send, drop}, Receiver::recv, InnerQueue::{send, recv, try_recv,
+// drop_chan}, Park::{new, subscribe, drop}, DropGuard, Blocker::{new_coroutine, into_coroutine,
+// unpark}, yield_with, may_queue::spsc::Queue::{push, pop, is_empty}, crossbeam AtomicCell
+// (real code; its AtomicU64 operations are schedule points).
+// Models: context switch (co_yield_with runs the real subscribe, then the receiver stays
+// suspended until its coroutine token is resumed), run_coroutine / Scheduler::schedule record
+// the resumption.
 use super::*;
 use crate::cancel::Cancel;
 use crate::scheduler::Scheduler;
 use crate::verif_shim::{gen, np, rt, sa};
 use std::panic as stdpanic;
 
-static mut MAXD: usize = 1;
 static mut TX: Option<Sender<u8>> = None;
-static mut SEND_LEFT: usize = 0; // sends before the drop
-static mut SENT: u8 = 0;
-static mut SEND_DONE: u8 = 0;
-static mut DROP_LEFT: bool = false;
-static mut DROP_DONE: bool = false;
-static mut IN_S: bool = false;
-static mut CANCEL: *const Cancel = std::ptr::null();
-static mut CO_RAW: usize = 0;
-static mut SUSPENDED: bool = false;
+static mut SEND_LEFT: bool = false; // one send(7) before the drop
+static mut SEND_DONE: bool = false;
+static mut D_DONE: bool = false;
 static mut RESUMED: usize = 0;
 static mut SUSPENDS: usize = 0;
+static mut CO_RAW: usize = 0;
+static mut CANCEL: *const Cancel = std::ptr::null();
 
-/// next whole operation of the sending side: send(1), send(2), ..., then drop of the Sender
+/// next whole operation of the sending side: [send(7)], then drop of the Sender
 fn run_s() {
     unsafe {
-        IN_S = true;
-        if SEND_LEFT > 0 {
-            SEND_LEFT -= 1;
-            SENT += 1;
-            let r = TX.as_ref().unwrap().send(SENT);
+        np::DEPTH += 1;
+        np::PREEMPTS += 1;
+        if SEND_LEFT {
+            SEND_LEFT = false;
+            let r = TX.as_ref().unwrap().send(7);
             assert!(r.is_ok(), "C07: send failed although the receiver is alive");
-            SEND_DONE += 1;
+            SEND_DONE = true;
         } else {
-            DROP_LEFT = false;
+            D_DONE = true;
             drop(TX.take());
-            DROP_DONE = true;
         }
-        IN_S = false;
+        np::DEPTH -= 1;
     }
-}
-fn s_left() -> bool {
-    unsafe { SEND_LEFT > 0 || DROP_LEFT }
 }
 fn hook() {
     unsafe {
-        if np::DEPTH < MAXD && !IN_S && s_left() && kani::any() {
-            np::nested(run_s);
+        if np::DEPTH == 0 && !D_DONE && kani::any() {
+            run_s();
         }
     }
 }
@@ -58,8 +51,6 @@ fn resumed(co: CoroutineImpl) {
     let raw = co.into_raw() as usize;
     unsafe {
         assert!(raw == CO_RAW, "a coroutine object other than the receiver was resumed");
-        assert!(SUSPENDED, "C06: receiver resumed while it is not suspended");
-        assert!(RESUMED == 0, "C06: receiver resumed twice for one suspension");
         RESUMED += 1;
     }
 }
@@ -75,32 +66,31 @@ fn is_coroutine_true() -> bool {
 fn current_cancel_data_stub() -> &'static Cancel {
     unsafe { &*CANCEL }
 }
+fn yield_now_prune() {
+    kani::assume(false);
+}
 fn co_yield_with_stub<T: std::any::Any>(v: T) {
     let b: Box<dyn std::any::Any> = Box::new(v);
     let es = *b.downcast::<crate::coroutine_impl::EventSubscriber>().unwrap();
     let co = unsafe { CoroutineImpl::from_raw(CO_RAW as *mut usize) };
     unsafe {
-        SUSPENDED = true;
-        RESUMED = 0;
         SUSPENDS += 1;
+        RESUMED = 0;
     }
     es.subscribe(co);
+    hook();
     unsafe {
-        // suspended: the sending side finishes its program (each operation with schedule points)
-        let mut i = 0;
-        while RESUMED == 0 && s_left() && i < 4 {
+        // suspended: the sending side finishes its program
+        if RESUMED == 0 && !D_DONE {
             run_s();
-            i += 1;
         }
-        if RESUMED == 0 {
-            assert!(!DROP_DONE, "C07: receiver stays parked for ever after the last sender was dropped");
-            assert!(SEND_DONE == RECEIVED, "C06: receiver stays parked for ever although a sent value is queued (lost wake-up)");
-            kani::assume(false);
+        if RESUMED == 0 && !D_DONE {
+            run_s();
         }
-        SUSPENDED = false;
+        assert!(RESUMED <= 1, "C06: receiver resumed twice for one suspension");
+        assert!(RESUMED == 1, "C07: receiver parked for ever after the last sender was dropped (or a value was sent)");
     }
 }
-static mut RECEIVED: u8 = 0;
 
 macro_rules! chan_harness {
     ($(#[$m:meta])* fn $name:ident() $body:block) => {
@@ -112,73 +102,71 @@ macro_rules! chan_harness {
         #[kani::stub(core::sync::atomic::Atomic::<usize>::store, sa::usize_store)]
         #[kani::stub(core::sync::atomic::Atomic::<*mut T>::load, sa::ptr_load)]
         #[kani::stub(core::sync::atomic::Atomic::<*mut T>::store, sa::ptr_store)]
-        #[kani::stub(crossbeam::atomic::AtomicCell::swap, rt::cell_swap)]
-        #[kani::stub(crossbeam::atomic::AtomicCell::store, rt::cell_store)]
-        #[kani::stub(crossbeam::atomic::AtomicCell::take, rt::cell_take)]
+        #[kani::stub(core::sync::atomic::Atomic::<u64>::swap, sa::u64_swap)]
+        #[kani::stub(core::sync::atomic::Atomic::<u64>::store, sa::u64_store)]
         #[kani::stub(crate::scheduler::get_scheduler, rt::get_scheduler_stub)]
         #[kani::stub(crate::scheduler::Scheduler::schedule, schedule_stub)]
         #[kani::stub(crate::coroutine_impl::run_coroutine, run_coroutine_stub)]
         #[kani::stub(crate::coroutine_impl::is_coroutine, is_coroutine_true)]
         #[kani::stub(crate::coroutine_impl::current_cancel_data, current_cancel_data_stub)]
-        #[kani::stub(crate::yield_now::yield_now, rt::yield_now_unreachable)]
+        #[kani::stub(crate::yield_now::yield_now, yield_now_prune)]
         #[kani::stub(generator::co_yield_with, co_yield_with_stub)]
         #[kani::stub(stdpanic::catch_unwind, rt::catch_unwind_stub)]
         #[kani::stub(stdpanic::take_hook, rt::take_hook_stub)]
         #[kani::stub(stdpanic::set_hook, rt::set_hook_stub)]
-        #[kani::stub(std::thread::panicking, np::panicking_stub)]
         #[kani::stub(std::sync::Arc::drop_slow, rt::arc_drop_slow_stub)]
         fn $name() $body
     };
 }
 
-/// coroutine receiver: recv() until Disconnected; the sender sends 0..=`max_send` values and is
-/// then dropped; each of its operations lands at any atomic step of the receiver's recv (incl.
-/// the window between the failed try_recv and the registration in Park::subscribe)
-fn co_recv_vs_sender(depth: usize, max_send: usize) {
+fn setup(with_send: bool) -> Receiver<u8> {
     let cancel: &'static Cancel = Box::leak(Box::new(Cancel::new()));
     rt::install_scheduler();
     let (tx, rx) = channel::<u8>();
     let co: CoroutineImpl = gen::Generator::fresh();
-    let n: usize = kani::any();
-    kani::assume(n <= max_send);
     unsafe {
         CANCEL = cancel;
         CO_RAW = co.into_raw() as usize;
         TX = Some(tx);
-        SEND_LEFT = n;
-        DROP_LEFT = true;
-        MAXD = depth;
+        SEND_LEFT = with_send;
         np::HOOK = Some(hook);
     }
-    let mut i = 0;
-    loop {
-        let r = rx.recv();
-        unsafe {
-            match r {
-                Ok(v) => {
-                    assert!(v == RECEIVED + 1, "C06: value received out of order, twice, or never sent");
-                    assert!(v <= SENT, "C06: received a value whose send has not started");
-                    RECEIVED += 1;
-                }
-                Err(_) => {
-                    assert!(DROP_DONE || !DROP_LEFT, "C07: Disconnected reported while the sender is alive");
-                    assert!(RECEIVED == SENT && SEND_LEFT == 0, "C07: Disconnected reported before the queued values were drained");
-                    break;
-                }
-            }
-        }
-        hook();
-        i += 1;
-        if i > max_send {
-            break;
-        }
-    }
-    unsafe {
-        kani::cover!(SUSPENDS > 0 && np::PREEMPTS > 0, "sender operation landed inside recv and the receiver suspended");
-        kani::cover!(RECEIVED as usize == n && n > 0, "all values received");
-    }
-    std::mem::forget(rx);
+    rx
 }
-chan_harness! { #[kani::unwind(3)] fn c07_spsc_co_recv_vs_drop_d1() { co_recv_vs_sender(1, 0) } }
-chan_harness! { #[kani::unwind(3)] fn c06_spsc_co_recv_send_drop_d1() { co_recv_vs_sender(1, 1) } }
-chan_harness! { #[kani::unwind(6)] fn c06_spsc_co_recv_2send_drop_d2() { co_recv_vs_sender(2, 2) } }
+
+/// no value is ever sent; the last Sender is dropped at any atomic step of recv() (incl. the
+/// window between the failed try_recv and the registration in Park::subscribe) or while the
+/// receiver is parked: recv must return Disconnected, and only after the drop
+chan_harness! {
+    #[kani::unwind(4)]
+    fn c07_spsc_co_recv_vs_last_sender_drop() {
+        let rx = setup(false);
+        let r = rx.recv();
+        assert!(r.is_err(), "C06: recv returned a value that was never sent");
+        assert!(unsafe { D_DONE }, "C07: Disconnected reported while the sender is alive");
+        unsafe {
+            kani::cover!(SUSPENDS == 1 && np::PREEMPTS > 0, "receiver suspended; the drop landed inside recv or while parked");
+            kani::cover!(SUSPENDS == 0, "drop before recv: no suspension");
+        }
+        std::mem::forget(rx);
+    }
+}
+/// send(7) then drop of the Sender, each at any atomic step: the value is received exactly once,
+/// first, and Disconnected only afterwards
+chan_harness! {
+    #[kani::unwind(4)]
+    fn c06_spsc_co_recv_send_then_drop() {
+        let rx = setup(true);
+        let r1 = rx.recv();
+        assert!(r1 == Ok(7), "C06/C07: the sent value must be received before Disconnected");
+        assert!(unsafe { SEND_DONE || !SEND_LEFT });
+        hook();
+        let r2 = rx.recv();
+        assert!(r2.is_err(), "C06: a value was received twice");
+        assert!(unsafe { D_DONE });
+        unsafe {
+            kani::cover!(SUSPENDS >= 1 && np::PREEMPTS > 0, "receiver suspended at least once");
+        }
+        std::mem::forget(rx);
+    }
+}
